@@ -35,6 +35,7 @@ type excCase struct {
 	line, col  int
 	code, msg  string
 	tag        string
+	prev       [][2]int // (line, col) pairs reported through the same Reporter before this one
 }
 
 func (c excCase) proto() string {
@@ -56,17 +57,21 @@ func excerptImpl(c excCase) (out string) {
 	f := fset.AddFile("x.go", -1, len(c.claimed))
 	f.SetLinesForContent([]byte(c.claimed))
 	// position: start of line + col-1, clamped into the file (the position must exist in the FileSet)
-	off := 0
-	if c.line >= 1 && c.line <= f.LineCount() {
-		off = int(f.LineStart(c.line)) - f.Base()
+	posOf := func(line, col int) (token.Pos, bool) {
+		off := 0
+		if line >= 1 && line <= f.LineCount() {
+			off = int(f.LineStart(line)) - f.Base()
+		}
+		off += col - 1
+		if off < 0 || off > len(c.claimed) {
+			return 0, false
+		}
+		pos := f.Pos(off)
+		p := fset.Position(pos)
+		return pos, p.Line == line && p.Column == col
 	}
-	off += c.col - 1
-	if off < 0 || off > len(c.claimed) {
-		return "skip"
-	}
-	pos := f.Pos(off)
-	p := fset.Position(pos)
-	if p.Line != c.line || p.Column != c.col {
+	pos, ok := posOf(c.line, c.col)
+	if !ok {
 		return "skip"
 	}
 	got := "noreport"
@@ -81,6 +86,12 @@ func excerptImpl(c excCase) (out string) {
 		Report: func(d analysis.Diagnostic) { got = d.Message },
 	}
 	r := reporting.NewReporter(pass, nil)
+	for _, pc := range c.prev {
+		if pp, ok := posOf(pc[0], pc[1]); ok {
+			r.ReportViolation(fakeViolation{c.code, "earlier", pp})
+		}
+	}
+	got = "noreport"
 	r.ReportViolation(fakeViolation{c.code, c.msg, pos})
 	return got
 }
@@ -218,7 +229,9 @@ func genLine(r *rng.R, n int, kind int) string {
 	return string(b)
 }
 
-func corrExcerpt(tier string, seed uint64, replay string) *res.Summary {
+func corrExcerpt(o corrOpts) *res.Summary {
+	tier, seed, replay := o.tier, o.seed, o.replay
+	panicOnly := o.extra["focus"] == "PANIC" // C10: only failures to terminate normally count
 	sum := &res.Summary{Suite: "excerpt", Tier: tier, Seed: seed}
 	r := rng.New(seed)
 	M := reporting.MaxLineLength
@@ -265,7 +278,7 @@ func corrExcerpt(tier string, seed uint64, replay string) *res.Summary {
 					colSet[c] = true
 				}
 			} else {
-				for _, base := range []int{1, M - 3, M - 2, n - M + 3, n - M + 4, n, n / 2} {
+				for _, base := range []int{1, M - 3, M - 2, n - M + 3, n - M + 4, n, n / 2, M / 2, n - M/2, M/2 - 2, n - M/2 + 2} {
 					for d := -3; d <= 3; d++ {
 						if base+d >= 1 && base+d <= n+1 {
 							colSet[base+d] = true
@@ -308,6 +321,68 @@ func corrExcerpt(tier string, seed uint64, replay string) *res.Summary {
 				lines[L-1] = genLine(r, n, r.Intn(2))
 				add(lines, L, 1+r.Intn(n+1), "gutter", true)
 			}
+		}
+		// context lines whose own length puts the reported column at their window boundaries
+		// (the column of the diagnostic also decides how the neighbours are cut)
+		for i := 0; i < 60; i++ {
+			n := 2*M + r.Intn(2*M)
+			col := 1 + r.Intn(n)
+			ctxLen := func() int {
+				base := []int{col + M/2, col + M/2 - 2, col + M - 3, col, col - 1 + M/2, 2 * col}[r.Intn(6)]
+				l := base + r.Intn(9) - 4
+				if l < 0 {
+					l = 0
+				}
+				return l
+			}
+			lines := []string{genLine(r, ctxLen(), 0), genLine(r, ctxLen(), 0), genLine(r, n, 0), genLine(r, ctxLen(), 0)}
+			add(lines, 3, col, "context-boundary", true)
+		}
+		// one Reporter, several diagnostics: the same line at columns in different windows, neighbouring lines
+		// (each message must be what a fresh rendering gives)
+		for i := 0; i < 40; i++ {
+			n := M + 10 + r.Intn(2*M)
+			lines := []string{genLine(r, r.Intn(3*M), 0), genLine(r, n, 0), genLine(r, r.Intn(3*M), 0), genLine(r, n, 1), "short"}
+			content := strings.Join(lines, "\n") + "\n"
+			cols := []int{1, 2, n / 2, n - 8, n, 1 + r.Intn(n)}
+			li := []int{2, 4}[r.Intn(2)]
+			c := excCase{claimed: content, actual: content, line: li, col: rng.Pick(r, cols), code: "TONL02", msg: "again", tag: "same-reporter"}
+			for k := 0; k < 1+r.Intn(3); k++ {
+				pl := li
+				if r.Chance(1, 3) {
+					pl = 1 + r.Intn(5)
+				}
+				c.prev = append(c.prev, [2]int{pl, 1 + r.Intn(5)})
+				if r.Bool() {
+					c.prev = append(c.prev, [2]int{li, rng.Pick(r, cols)})
+				}
+			}
+			cases = append(cases, c)
+		}
+		// the file as read is much shorter than the reported line (changed since parsing, or cut by the scanner)
+		for i := 0; i < 24; i++ {
+			total := 6 + r.Intn(30)
+			lines := make([]string, total)
+			for k := range lines {
+				lines[k] = fmt.Sprintf("line %d", k+1)
+			}
+			content := strings.Join(lines, "\n") + "\n"
+			keep := r.Intn(4)
+			li := 1 + r.Intn(total)
+			c := excCase{claimed: content, actual: strings.Join(lines[:keep], "\n"), line: li, col: 1 + r.Intn(4), code: "PKGO02", msg: "cut", tag: "much-shorter-file"}
+			if keep > 0 && r.Bool() {
+				c.actual += "\n"
+			}
+			if i%4 == 3 {
+				// the scanner gives up at an over-long line: everything from there on is gone
+				big := append([]string{}, lines...)
+				at := r.Intn(3)
+				big[at] = genLine(r, 66000, 0)
+				c.claimed = strings.Join(big, "\n") + "\n"
+				c.actual = c.claimed
+				c.tag = "scanner-limit-far"
+			}
+			cases = append(cases, c)
 		}
 		// files that cannot be read, or are shorter / different than expected
 		for i := 0; i < 40; i++ {
@@ -378,7 +453,18 @@ func corrExcerpt(tier string, seed uint64, replay string) *res.Summary {
 		if impl == model {
 			continue
 		}
-		d := res.Disagreement{Kind: "impl-vs-model", Input: reqs[i], Impl: fmt.Sprintf("%q", impl), Model: fmt.Sprintf("%q", model), Clause: "GGV.Model.render"}
+		if panicOnly && !strings.HasPrefix(impl, "panic:") {
+			continue
+		}
+		input := reqs[i]
+		if len(c.prev) > 0 {
+			var ps []string
+			for _, pc := range c.prev {
+				ps = append(ps, fmt.Sprintf("%d:%d", pc[0], pc[1]))
+			}
+			input += " prev=" + strings.Join(ps, ",")
+		}
+		d := res.Disagreement{Kind: "impl-vs-model", Input: input, Impl: fmt.Sprintf("%q", impl), Model: fmt.Sprintf("%q", model), Clause: "GGV.Model.render"}
 		if strings.HasPrefix(impl, "panic:") {
 			d.Kind = "panic"
 			d.Clause = "GGV.Props.C19.truncateG_total"
@@ -400,10 +486,18 @@ func excerptParse(line string) (excCase, error) {
 	if len(f) >= 2 && f[0] == "excerpt" && f[1] == "render" {
 		f = f[2:]
 	}
+	c := excCase{tag: "replay"}
+	if len(f) == 6 && strings.HasPrefix(f[5], "prev=") {
+		for _, pc := range strings.Split(f[5][5:], ",") {
+			var l, k int
+			fmt.Sscanf(pc, "%d:%d", &l, &k)
+			c.prev = append(c.prev, [2]int{l, k})
+		}
+		f = f[:5]
+	}
 	if len(f) != 5 {
 		return excCase{}, fmt.Errorf("bad excerpt replay line")
 	}
-	c := excCase{tag: "replay"}
 	if f[0] == "!" {
 		c.unreadable = true
 	} else {
